@@ -167,7 +167,7 @@ Apply(T, ww, r) ==
                          IF quiet /\ T.sink = 1 /\ \E j \in DOMAIN ww.st : ww.st[j] = "done" /\ j \notin ww.sunk
                             THEN "PROP:lost_after_service" ELSE "",
                          IF T.cnt = 1 /\ ~Counted(ww.nrej, c) THEN "PROP:reject_not_counted" ELSE "")
-            mv == IF T.fin[1] # ww.enq \/ T.fin[2] # Cardinality({ j \in DOMAIN ww.st : ww.st[j] = "done" })
+            mv == IF T.fin[1] >= 0 /\ (T.fin[1] # ww.enq \/ T.fin[2] # Cardinality({ j \in DOMAIN ww.st : ww.st[j] = "done" }))
                   THEN "MODEL:published_counters"
                   ELSE IF quiet /\ T.allof = 1 /\ \E j \in DOMAIN ww.st : ww.st[j] = "new" THEN "MODEL:item_never_offered" ELSE ""
         IN Out(w0, pv, mv)
